@@ -36,6 +36,8 @@ Fixpoint d_expr (fuel : nat) (s : sexp) : expr :=
     | A 16%Z :: e :: i :: j :: _ => ESlice (d e) (d_opt d_Z i) (d_opt d_Z j)
     | A 17%Z :: e :: i :: _ => EIndex (d e) (d_Z i)
     | A 18%Z :: a :: b :: _ => EAdd (d a) (d b)
+    (* 22: `b = a; b += x` -- no class defines __iadd__, so Python evaluates a + x *)
+    | A 22%Z :: a :: b :: _ => EAdd (d a) (d b)
     | A 19%Z :: a :: b :: _ => EAppend (d a) (d b)
     | A 20%Z :: sp :: es :: _ => EJoin (d sp) (map d (d_items es))
     | A 21%Z :: e :: sp :: k :: n :: _ => ESplitNth (d e) (d_sepk sp) (d_opt d_bool k) (d_nat n)
@@ -60,6 +62,8 @@ Definition dispatch (fn : Z) (a : sexp) : sexp :=
   | 5%Z => e_res e_bool (do v <- eval_c (d_e (d_nth a 0)); Ok (rendswith v (d_list d_str (d_nth a 1))))
   | 6%Z => e_res e_bool (do v <- eval_c (d_e (d_nth a 0)); Ok (risalpha v))
   | 7%Z => e_res e_bool (do v <- eval_c (d_e (d_nth a 0)); do w <- eval_c (d_e (d_nth a 1)); Ok (rt_eqb v w))
+  (* 9: text1 != text2 (BaseText.__ne__ 113-114: not self == other) *)
+  | 9%Z => e_res e_bool (do v <- eval_c (d_e (d_nth a 0)); do w <- eval_c (d_e (d_nth a 1)); Ok (negb (rt_eqb v w)))
   | _ => L []
   end.
 
